@@ -3,7 +3,8 @@ let () =
   match Sys.argv with
   | [| _; "c03" |] -> C03.run ()
   | [| _; "c15" |] -> C15.run ()
-  | [| _; "ble" |] -> Ble.run ()
+  | [| _; "ble" |] -> Ble.run 1
+  | [| _; "ble"; stride |] -> Ble.run (int_of_string stride)
   | [| _; "blehandler"; f; o |] -> Blehandler.run f o
   | [| _; "script"; f |] -> Script.run f
   | [| _; "judge"; f; o |] -> Judge.run f o
